@@ -9,11 +9,13 @@ repo="${1:-${VP_RUN_REPO:-}}"
 here="$(cd "$(dirname "$0")/.." && pwd)"
 export VERIF_REPO="$repo"
 missed=0
+tier="${REGRESS_TIER:-quick}"
 for d in "$here"/seeded/C*/; do
     name=$(basename "$d"); prop=${name%%-*}
+    if [ -n "${REGRESS_ONLY:-}" ] && ! echo " $REGRESS_ONLY " | grep -q " $name "; then continue; fi
     git -C "$repo" checkout -q -- . || exit 2
     if ! git -C "$repo" apply "$d/patch.diff" 2>/dev/null; then echo "$name: patch does not apply to this tree (skipped)"; continue; fi
-    out=$("$here/check" "$prop" quick 2>&1); rc=$?
+    out=$("$here/check" "$prop" "$tier" 2>&1); rc=$?
     git -C "$repo" checkout -q -- .
     hits=$(echo "$out" | grep -E "^hits:" | head -1)
     c19=$(echo "$out" | grep -cE "^VIOLATION")
